@@ -218,7 +218,7 @@ def droplet_matrix(rng):
 
 
 TIME_LISTS = [[0, 1, 2, 3, 4], [0.0, 0.5, 2.25, 2.5, 10.0], [-4, -2, 0, 2, 4], [-2.5, 0, 2.5, 5, 7.5], [3, 1, 2, 2, -1], [1e-300, 1.5, 1e300, -0.0, 7],
-              [5, 4, 3, 2, 1]]
+              [5, 4, 3, 2, 1], [0, 2.5, 2.75, 5, 7], [True, 0.25, 2, 2.5, 3], [2**53 + 1, 0.5, 1, 2, 3]]
 
 
 def same_droplet(a, b):
@@ -302,8 +302,10 @@ class RoundTrips(Bounded):
         sizes = [0, 1, 2, 5]
         try:
             for ci, (cname, dim, mk) in enumerate(mat):
-                szs = sizes if tier == "thorough" else [sizes[(ci + k) % 4] for k in range(2)]
-                tls = TIME_LISTS if tier == "thorough" else [TIME_LISTS[(ci + k) % len(TIME_LISTS)] for k in range(2)]
+                # the first two classes see every size and every time list in the quick tier, too (integer end points around fractional times,
+                # booleans, integers beyond 2**53)
+                szs = sizes if tier == "thorough" or ci < 2 else [sizes[(ci + k) % 4] for k in range(2)]
+                tls = TIME_LISTS if tier == "thorough" or ci < 2 else [TIME_LISTS[(ci + k) % len(TIME_LISTS)] for k in range(2)]
                 for n in szs:
                     em = Emulsion([mk(rng) for _ in range(n)])
                     check("Emulsion", em, f"{cname} d{dim} n{n}")
@@ -1287,3 +1289,11 @@ class TrackData(Contract):
             out.append(("the dtype is the droplets' dtype with a leading float64 column `time`",
                         isinstance(dt, list) and len(dt) == 2 and dt[0] == ("time", "f8") and isinstance(dt[1], Descr)))
         return out
+
+
+@models.external("numpy.result_type", "numpy.promote_types", "numpy.min_scalar_type")
+def np_result_type(engine, run, a, k):
+    """the dtype numpy derives from VALUES (or from other dtypes): an opaque dtype - in particular it is not known to be float64, so a
+    time column typed this way fails the `leading float64 column` clause (integer time stamps would make it an integer column)"""
+    run.trust("numpy.result_type / promote_types yield a dtype that depends on the values (opaque)")
+    return SOpaque("dtype derived from values")
